@@ -1893,7 +1893,10 @@ class Comparator:
                     return eq(obj1, obj2)
             if isinstance(eq_type, FunctionType) and eq_type(obj1) and eq_type(obj2):
                 return eq(obj1, obj2)
-        if isinstance(obj2, (list, set, tuple)):
+        if isinstance(obj2, (set, frozenset)):
+            # Unordered: equal sets may iterate in different orders
+            return type(obj1) is type(obj2) and obj1 == obj2
+        if isinstance(obj2, (list, tuple)):
             return cls.compare_iterator(obj1, obj2)
         elif isinstance(obj2, dict):
             return cls.compare_mapping(obj1, obj2)
@@ -1911,6 +1914,9 @@ class Comparator:
     @classmethod
     def compare_mapping(cls, obj1, obj2):
         if type(obj1) is not type(obj2) or len(obj1) != len(obj2): return False
+        if isinstance(obj1, OrderedDict) and list(obj1) != list(obj2):
+            # The same items in a different order are a different OrderedDict
+            return False
         for k in obj1:
             if k in obj2:
                 if not cls.is_equal(obj1[k], obj2[k]):
